@@ -278,18 +278,25 @@ class RowSets:
             return True
         if k == "bin" and t[1] in ("&", "|"):
             return True
-        if k == "call" and t[1][0] == "attr" and t[1][2] in ("isin", "flatten", "notnull", "isnull", "isna", "notna"):
+        if k == "call" and t[1][0] == "attr" and t[1][2] in ("isin", "flatten", "notnull", "isnull", "isna", "notna", "between"):
             return t[1][2] != "flatten" or self._is_mask(t[1][1])
         if k == "call" and t[1][0] == "global" and t[1][1].endswith("isclose"):
             return True
         return False
 
     def col_of(self, t):
-        """column read `frame.col` / `frame['col']` -> (frame term, col name) or None"""
+        """column read `frame.col` / `frame['col']` -> (frame term, col name) or None.
+        An element-wise transformation of a column (`frame.col.round()`, `.abs()`, `.astype(..)`) is a *different* quantity: it
+        gets its own name, so a rule written for `col` is not silently satisfied by a comparison on `round(col)`."""
         if t[0] == "attr" and t[2] not in ("values", "T", "loc", "iloc", "shape", "columns", "index"):
             return t[1], t[2]
         if t[0] == "sub" and t[2][0] == "const" and isinstance(t[2][1], str):
             return t[1], t[2][1]
+        if t[0] == "call" and t[1][0] == "attr" and t[1][2] in ("round", "abs", "floor", "ceil"):
+            inner = self.col_of(t[1][1])
+            if inner is not None:
+                args = ", ".join(ir.show(a, maxdepth=2) for a in t[2])
+                return inner[0], f"{t[1][2]}({inner[1]}{', ' + args if args else ''})"
         return None
 
     def mask(self, m, frame):
@@ -320,6 +327,23 @@ class RowSets:
             name = f"isclose({lc[1]},{ir.show(m[2][1])})"
             self.atoms[name] = name
             return ("var", name)
+        if k == "call" and m[1][0] == "attr" and m[1][2] == "between" and len(m[2]) >= 2:
+            # Series.between(left, right, inclusive="both"): left <= col <= right unless `inclusive` says otherwise
+            lc = self.col_of(m[1][1])
+            if lc is None:
+                raise AnalysisError(f"between is not on a column: {ir.show(m, maxdepth=3)}")
+            inc = dict(m[3]).get("inclusive", m[2][2] if len(m[2]) > 2 else ("const", "both"))
+            if inc[0] != "const" or inc[1] not in ("both", "neither", "left", "right", True, False):
+                raise AnalysisError(f"between(inclusive=..) not a literal: {ir.show(m, maxdepth=3)}")
+            inc = {True: "both", False: "neither"}.get(inc[1], inc[1])
+            lo_ops = {"gt", "eq"} if inc in ("both", "left") else {"gt"}
+            hi_ops = {"lt", "eq"} if inc in ("both", "right") else {"lt"}
+            out = []
+            for bound, ops in ((m[2][0], lo_ops), (m[2][1], hi_ops)):
+                key = ("rel", lc[1], ir.show(bound, maxdepth=4))
+                self.atoms[key] = f"{lc[1]} vs {ir.show(bound, maxdepth=4)}"
+                out.append(("rel", key, frozenset(ops)))
+            return And(*out)
         if k == "call" and m[1][0] == "attr" and m[1][2] == "isin":
             lc = self.col_of(m[1][1])
             arg = m[2][0]
